@@ -109,23 +109,24 @@ type run struct {
 	msgs    map[string]Msg    // token string -> message
 	timeout time.Duration
 
-	seen   map[string]chan struct{} // "c/t": SendBegin recorded
-	gate   map[string]chan struct{} // "c/t": release of a parked SendFunc
-	done   map[string]chan struct{} // "c/t": SendEnd recorded
-	once   map[string]*sync.Once
-	gated  map[string]bool
-	cbCh   map[string]chan controlcommands.MesosCommandResponse
-	cbGot  map[string]chan struct{} // first callback value received
-	cbN    map[string]int
-	first  map[string]map[string]interface{} // first callback value as recorded
-	enq    []string
-	prMu   sync.Mutex
-	prOpen map[string]bool // token -> ProcessResponse called and not returned
-	prWG   map[string]chan struct{}
-	noWait map[string]bool // token -> predicted (by the model) to block in ProcessResponse for ever
-	lastOk time.Time // latest SendEnd with ok (a timer may still be running until lastOk+timeout)
-	wg     sync.WaitGroup
-	failed string
+	seen    map[string]chan struct{} // "c/t": SendBegin recorded
+	gate    map[string]chan struct{} // "c/t": release of a parked SendFunc
+	done    map[string]chan struct{} // "c/t": SendEnd recorded
+	once    map[string]*sync.Once
+	gated   map[string]bool
+	cbCh    map[string]chan controlcommands.MesosCommandResponse
+	cbGot   map[string]chan struct{} // first callback value received
+	cbN     map[string]int
+	first   map[string]map[string]interface{} // first callback value as recorded
+	enq     []string
+	prMu    sync.Mutex
+	prOpen  map[string]bool // token -> ProcessResponse called and not returned
+	prWG    map[string]chan struct{}
+	mustRet map[string]bool // token -> the reply cannot find a pending call (must be dropped and return)
+	noWait  map[string]bool // token -> predicted (by the model) to block in ProcessResponse for ever
+	lastOk  time.Time       // latest SendEnd with ok (a timer may still be running until lastOk+timeout)
+	wg      sync.WaitGroup
+	failed  string
 }
 
 func (r *run) emit(ev string, kv ...interface{}) {
@@ -157,7 +158,7 @@ func newRun(sc *Scenario) *run {
 		tname: map[controlcommands.MesosCommandTarget]string{}, taskT: map[string]string{}, msgs: map[string]Msg{},
 		seen: map[string]chan struct{}{}, gate: map[string]chan struct{}{}, done: map[string]chan struct{}{}, once: map[string]*sync.Once{},
 		gated: map[string]bool{}, cbCh: map[string]chan controlcommands.MesosCommandResponse{}, cbGot: map[string]chan struct{}{},
-		cbN: map[string]int{}, first: map[string]map[string]interface{}{}, prOpen: map[string]bool{}, prWG: map[string]chan struct{}{}, noWait: map[string]bool{},
+		cbN: map[string]int{}, first: map[string]map[string]interface{}{}, prOpen: map[string]bool{}, prWG: map[string]chan struct{}{}, noWait: map[string]bool{}, mustRet: map[string]bool{},
 		timeout: time.Duration(sc.ToMs) * time.Millisecond}
 	for _, t := range []string{"t1", "t2", "t3", "t4", "tx"} {
 		tg := mkTarget(t)
@@ -293,8 +294,22 @@ func (r *run) inject(m Msg, delay time.Duration) chan struct{} {
 			time.Sleep(delay)
 		}
 		res, sender := r.reply(m)
+		// a reply whose call cannot be pending (no such call, or its command's callback value was
+		// already received) must be dropped: its ProcessResponse gets a longer deadline at the end
+		isCall := false
+		for _, t := range r.sc.Tg[m.ID] {
+			if t == m.Snd {
+				isCall = true
+			}
+		}
+		r.mu.Lock()
+		must := !isCall || r.cbN[m.ID] >= 1
+		r.mu.Unlock()
 		r.prMu.Lock()
 		r.prOpen[tok] = true
+		if must {
+			r.mustRet[tok] = true
+		}
 		r.prMu.Unlock()
 		r.emit("PRCall", "m", r.msgJSON(m))
 		close(called)
@@ -555,6 +570,26 @@ func (r *run) finish() {
 			case <-ch:
 			case <-deadline:
 				break loop
+			}
+		}
+	}
+	// second chance (never needed on a correct tree): replies that must be dropped
+	r.prMu.Lock()
+	must := make([]chan struct{}, 0)
+	for tok := range r.prOpen {
+		if r.mustRet[tok] {
+			must = append(must, r.prWG[tok])
+		}
+	}
+	r.prMu.Unlock()
+	if len(must) > 0 {
+		deadline := time.After(4 * time.Second)
+	loop2:
+		for _, ch := range must {
+			select {
+			case <-ch:
+			case <-deadline:
+				break loop2
 			}
 		}
 	}
